@@ -23,6 +23,7 @@ type zzGraph struct {
 	runs   [5]int
 	panics [5]bool
 	fails  [5]bool
+	desc   [5]bool // query i resolves its dependencies in descending order
 }
 
 func (q zzQ) Key() any { return q.i }
@@ -34,7 +35,11 @@ func (q zzQ) Execute(t *Task) (int, error) {
 		panic("query panicked")
 	}
 	sum := 1
-	for j := q.i + 1; j < g.n; j++ {
+	for k := q.i + 1; k < g.n; k++ {
+		j := k
+		if g.desc[q.i] {
+			j = g.n - (k - q.i)
+		}
 		if g.dep[q.i][j] {
 			r, err := Resolve(t, Query[int](zzQ{j, g}))
 			if err != nil {
@@ -75,6 +80,13 @@ func HarnessC33Seq() {
 	for i := 0; i < g.n; i++ {
 		for j := i + 1; j < g.n; j++ {
 			g.dep[i][j] = zz.Bool()
+		}
+	}
+	if zz.Tier() == 1 {
+		// the order in which a query resolves its dependencies shapes the callers sets the
+		// eviction walk iterates over: ascending or descending for the first three queries
+		for i := 0; i < 3; i++ {
+			g.desc[i] = zz.Choice(2) == 1
 		}
 	}
 	e := New(WithParallelism(1))
